@@ -26,6 +26,44 @@ type capture struct {
 	svc, route  int
 	params      map[string]string
 	selPath     string
+	seen        []string // "<stage>=<operation of Request.SelectedRoute()>" for every observing filter and the handler
+}
+
+// OpName is the Operation every generated route carries: it names the declaration, so that a stage
+// can say which route it sees as the selected one (Request.SelectedRoute().Operation()).
+func OpName(svc, route int) string { return fmt.Sprintf("s%dr%d", svc, route) }
+
+func selectedOp(req *restful.Request) string {
+	if sr := req.SelectedRoute(); sr != nil {
+		return sr.Operation()
+	}
+	return "-"
+}
+
+// observer is a pass-through filter that records which route it sees as the selected one.
+func observer(stage string) restful.FilterFunction {
+	return func(req *restful.Request, resp *restful.Response, chain *restful.FilterChain) {
+		if cp, ok := req.Request.Context().Value(ctxKey{}).(*capture); ok {
+			cp.seen = append(cp.seen, stage+"="+selectedOp(req))
+		}
+		chain.ProcessFilter(req, resp)
+	}
+}
+
+// BuildOpts: how a table is put on a container besides the table itself.
+type BuildOpts struct {
+	// Observe: 0 = no filter at all; 1 = an observing container filter; 2 = … and one on every
+	// WebService; 3 = … and one on every route
+	Observe int
+	// Dynamic: WebService.SetDynamicRoutes(true) on every WebService (RemoveRoute is allowed)
+	Dynamic bool
+}
+
+// Built is a container with the handles of its WebServices (in the order of cfg.Services).
+type Built struct {
+	C  *restful.Container
+	WS []*restful.WebService
+	BO BuildOpts
 }
 
 // CondHeader carries the If-condition bits of a request ("101" = conditions 0 and 2 true).
@@ -45,26 +83,49 @@ func condFn(i int) restful.RouteSelectionConditionFunction {
 type contT = *restful.Container
 
 func Build(cfg Config) (c *restful.Container, err error) {
+	b, err := BuildWith(cfg, BuildOpts{})
+	if err != nil {
+		return nil, err
+	}
+	return b.C, nil
+}
+
+// BuildWith constructs a real container from the configuration with the given build options.
+func BuildWith(cfg Config, bo BuildOpts) (b *Built, err error) {
 	defer func() {
 		if r := recover(); r != nil {
-			c, err = nil, fmt.Errorf("build panic: %v", r)
+			b, err = nil, fmt.Errorf("build panic: %v", r)
 		}
 	}()
-	c = restful.NewContainer()
+	c := restful.NewContainer()
 	if cfg.Router == "jsr" {
 		c.Router(restful.RouterJSR311{})
 	} else {
 		c.Router(restful.CurlyRouter{})
 	}
-	for _, s := range cfg.Services {
-		c.Add(BuildService(s))
+	if bo.Observe >= 1 {
+		c.Filter(observer("container-filter"))
 	}
-	return c, nil
+	b = &Built{C: c, BO: bo}
+	for _, s := range cfg.Services {
+		ws := buildService(s, bo)
+		c.Add(ws)
+		b.WS = append(b.WS, ws)
+	}
+	return b, nil
 }
 
-func BuildService(s Service) *restful.WebService {
+func BuildService(s Service) *restful.WebService { return buildService(s, BuildOpts{}) }
+
+func buildService(s Service, bo BuildOpts) *restful.WebService {
 	ws := new(restful.WebService)
 	ws.Path(s.Root)
+	if bo.Dynamic {
+		ws.SetDynamicRoutes(true)
+	}
+	if bo.Observe >= 2 {
+		ws.Filter(observer("service-filter"))
+	}
 	if len(s.Consumes) > 0 {
 		ws.Consumes(s.Consumes...)
 	}
@@ -72,14 +133,18 @@ func BuildService(s Service) *restful.WebService {
 		ws.Produces(s.Produces...)
 	}
 	for _, r := range s.Routes {
-		ws.Route(RouteBuilder(ws, s, r))
+		rb := RouteBuilder(ws, s, r)
+		if bo.Observe >= 3 {
+			rb.Filter(observer("route-filter"))
+		}
+		ws.Route(rb)
 	}
 	return ws
 }
 
 func RouteBuilder(ws *restful.WebService, s Service, r RouteDecl) *restful.RouteBuilder {
 	sid, rid := s.ID, r.ID
-	b := ws.Method(r.Method).Path(r.Rel)
+	b := ws.Method(r.Method).Path(r.Rel).Operation(OpName(sid, rid))
 	if len(r.Consumes) > 0 {
 		b.Consumes(r.Consumes...)
 	}
@@ -101,6 +166,7 @@ func RouteBuilder(ws *restful.WebService, s Service, r RouteDecl) *restful.Route
 				cp.params[k] = v
 			}
 			cp.selPath = req.SelectedRoutePath()
+			cp.seen = append(cp.seen, "handler="+selectedOp(req))
 		}
 		if req.Request.Header.Get(FaultHeader) == "handler" {
 			panic("verif: fault traffic, the route function panics")
@@ -170,7 +236,11 @@ func StillUsable(c *restful.Container) bool {
 }
 
 // Dispatch runs one request through Container.Dispatch and projects the outcome.
-func Dispatch(c *restful.Container, r Req) (o Outcome) {
+func Dispatch(c *restful.Container, r Req) (o Outcome) { return DispatchVia(c, r, false) }
+
+// DispatchVia: through Container.Dispatch, or (viaServe) through Container.ServeHTTP — the http.Handler
+// side: the container's ServeMux decides first (its own 404, its redirects for unclean paths).
+func DispatchVia(c *restful.Container, r Req, viaServe bool) (o Outcome) {
 	cp := &capture{}
 	hr := HTTPRequest(r)
 	hr = hr.WithContext(context.WithValue(context.Background(), ctxKey{}, cp))
@@ -180,10 +250,21 @@ func Dispatch(c *restful.Container, r Req) (o Outcome) {
 			o = Outcome{Kind: "panic", PanicVal: fmt.Sprint(p), Invocations: cp.invocations}
 		}
 	}()
-	c.Dispatch(rec, hr)
+	if viaServe {
+		c.ServeHTTP(rec, hr)
+	} else {
+		c.Dispatch(rec, hr)
+	}
 	if cp.invocations > 0 {
-		return Outcome{Kind: "sel", Svc: cp.svc, Route: cp.route, Params: cp.params, SelPath: cp.selPath,
+		o = Outcome{Kind: "sel", Svc: cp.svc, Route: cp.route, Params: cp.params, SelPath: cp.selPath,
 			Invocations: cp.invocations, Code: rec.Code}
+		// every stage that looked must have seen the route whose function ran as the selected one
+		for _, s := range cp.seen {
+			if !strings.HasSuffix(s, "="+OpName(cp.svc, cp.route)) {
+				o.SeenOther = append(o.SeenOther, s)
+			}
+		}
+		return o
 	}
 	o = Outcome{Kind: "err", Code: rec.Code}
 	if vs, ok := rec.Result().Header["Allow"]; ok { // the headers as sent, not the live map
